@@ -132,7 +132,7 @@ CONSTANTS
 UNOPS = ['UnaryMinus', 'exp', 'log', 'logzero', 'sin', 'cos', 'bioNormalCdf', 'PowerConstant']
 COMPARISONS = ['Equal', 'NotEqual', 'LessOrEqual', 'GreaterOrEqual', 'Less', 'Greater']
 BINOPS = ['Plus', 'Minus', 'Times', 'Divide', 'Power', 'bioMin', 'bioMax', 'And', 'Or'] + COMPARISONS
-NARYOPS = ['bioMultSum', 'BelongsTo', 'Elem', 'ConditionalSum', 'bioLinearUtility', '_bioLogLogit', '_bioLogLogitFullChoiceSet']
+NARYOPS = ['bioMultSum', 'BelongsTo', 'BelongsToHalf', 'Elem', 'ConditionalSum', 'bioLinearUtility', '_bioLogLogit', '_bioLogLogitFullChoiceSet']
 
 # two fixed parameters with different values whose order of appearance (a_fix, Z_fix) is not their sorted order
 BETAS = [('b2', True, ['1/2', '3']), ('B10', True, ['2', '-1']), ('a_fix', False, ['3/2', '3/2']), ('Z_fix', False, ['-2', '-2'])]
@@ -303,7 +303,8 @@ class Builder:
         if op == 'bioMultSum':
             return ex.bioMultSum(k)
         if op == 'BelongsTo':
-            return ex.BelongsTo(k[0], set(n['keys']))
+            div = F(n['num'][0], n['num'][1]) if n['num'][0] else F(1)
+            return ex.BelongsTo(k[0], {float(F(key) / div) for key in n['keys']})
         if op == 'Elem':
             return ex.Elem({key: k[1 + j] for j, key in enumerate(n['keys'])}, k[0])
         if op == 'ConditionalSum':
